@@ -22,6 +22,7 @@ type FuncReport struct {
 	Bound   bool
 	Callees map[string]bool // contracts assumed at call sites
 	Covers  []*Obligation   // clause antecedent reachability (thorough): vacuous iff unsat on every return path
+	coverN  map[string]int
 }
 
 func (w *World) newExec(fn *ssa.Function, spec *FuncSpec, beh *Behavior) *Exec {
@@ -278,7 +279,7 @@ func (w *World) verifyBehavior(rep *FuncReport, fn *ssa.Function, spec *FuncSpec
 				}
 			}
 		}
-		if w.Covers && len(rep.Covers) < 400 {
+		if w.Covers {
 			// clause covers (thorough tier): an `A ==> B` clause proves nothing if A can never hold at a return
 			for i, c := range beh.Ensures {
 				if c.Abstract || c.E == nil || c.E.Kind != "bin" || c.E.Op != "==>" {
@@ -292,7 +293,15 @@ func (w *World) verifyBehavior(rep *FuncReport, fn *ssa.Function, spec *FuncSpec
 				if label == "" {
 					label = fmt.Sprint(i)
 				}
-				rep.Covers = append(rep.Covers, &Obligation{Name: fmt.Sprintf("%s.cover[%s]", base, label), Kind: "cover", Text: c.E.Args[0].Src,
+				cname := fmt.Sprintf("%s.cover[%s]", base, label)
+				if rep.coverN == nil {
+					rep.coverN = map[string]int{}
+				}
+				if rep.coverN[cname] >= 1500 {
+					continue // enough return paths sampled for this clause
+				}
+				rep.coverN[cname]++
+				rep.Covers = append(rep.Covers, &Obligation{Name: cname, Kind: "cover", Text: c.E.Args[0].String(),
 					Facts: append(append(append([]*Term(nil), x.gfacts...), st2.Facts...), a), Goal: TFalse, Theory: x.theory, Func: spec.Key, Behavior: beh.Name})
 			}
 		}
